@@ -31,7 +31,21 @@ class FixedRng:
         return SymArr(np.asarray(vals, dtype=object).reshape(size if size is not None else ()))
 
 
-def program(cls_name, N, h, hs, kmax, both_flags):
+class ProbeRng:
+    """Concrete generator for the intermediate (discarded) samples of the interleaved histories."""
+
+    def integers(self, low, high=None, size=None, **kw):
+        if high is None:
+            low, high = 0, low
+        if int(high) <= int(low):
+            raise ValueError("high <= 0")  # as numpy's generator
+        return np.full(size, int(low), dtype=np.int64) if size is not None else int(low)
+
+    def uniform(self, low=0.0, high=1.0, size=None):
+        return np.full(size if size is not None else (), 0.5, dtype=float)
+
+
+def program(cls_name, N, h, hs, kmax, both_flags, probe=False):
     from rl_blox.blox import replay_buffer as rb
 
     def prog(ctx):
@@ -41,6 +55,8 @@ def program(cls_name, N, h, hs, kmax, both_flags):
             K = int(sym_int("n_adds", 1, kmax))
             ep, t = 0, 0
             hist = []
+            # interleaved histories: one intermediate sample after add number `probe_after` (== K: after every add)
+            pa = int(sym_int("probe_after", 0, K)) if probe else -1
             for i in range(K):
                 term = sym_bool(f"terminated{i}")
                 trunc = sym_bool(f"truncated{i}")
@@ -56,6 +72,10 @@ def program(cls_name, N, h, hs, kmax, both_flags):
                     ep, t = ep + 1, 0
                 else:
                     t += 1
+                if probe and i < K - 1 and (pa == K or pa == i):
+                    ctx.log.append("sample")
+                    with contextlib.suppress(ValueError):
+                        buf.sample_batch(1, hs, bool(i % 2), ProbeRng())
             rng = RngStub()
             try:
                 full = buf.sample_batch(1, hs, True, rng)
@@ -114,7 +134,10 @@ def main(tier, seed):
         confs = [(3, 1, 1, 5), (4, 2, 2, 6), (4, 2, 1, 5), (5, 3, 3, 6), (4, 3, 2, 6), (6, 3, 3, 7), (6, 2, 2, 7)]
         rep.max_paths = 400000
         rep.time_budget = 1500
-    rep.r.bounds = {"(capacity N, storage horizon h, sampling horizon hs<=h, max adds K)": [list(c) for c in confs],
+    pconfs = [(3, 1, 1, 4)] if tier == "quick" else [(3, 1, 1, 5), (4, 2, 2, 6)]
+    rep.r.bounds = {"interleaved histories (capacity, h, hs, K)": [list(c) for c in pconfs],
+                    "interleaving": "add^K with intermediate sample_batch calls (concrete draw, result discarded) after one symbolic add position or after every add, then the checked sample",
+                    "(capacity N, storage horizon h, sampling horizon hs<=h, max adds K)": [list(c) for c in confs],
                     "flags": "terminated/truncated symbolic per step (quick: not both at once; thorough: all 4 combinations)",
                     "start": "every admissible start (generator draw symbolic, enumerated by forking)", "variants": ["SubtrajectoryReplayBuffer", "SubtrajectoryReplayBufferPER"]}
     rep.r.assumptions = ["numpy allocation shim (poisoned never-written slots) + generator stub as in C02", "observations carry concrete ghost tags (episode, t); actions carry the write sequence number; rewards are symbolic reals",
@@ -125,6 +148,10 @@ def main(tier, seed):
             if tier == "quick" and cls.endswith("PER") and N > 4:
                 continue
             rep.run(f"{cls}[N={N},h={h},hs={hs},K<={kmax}]", program(cls, N, h, hs, kmax, tier != "quick" and kmax <= 5),
+                    fn=f"{cls}.add_sample/sample_batch/_sample_idx", site_of=lambda label, cls=cls: f"{cls}:{label}")
+    for (N, h, hs, kmax) in pconfs:
+        for cls in ("SubtrajectoryReplayBuffer", "SubtrajectoryReplayBufferPER"):
+            rep.run(f"{cls}[N={N},h={h},hs={hs},K<={kmax},interleaved-samples]", program(cls, N, h, hs, kmax, False, probe=True),
                     fn=f"{cls}.add_sample/sample_batch/_sample_idx", site_of=lambda label, cls=cls: f"{cls}:{label}")
     return rep.finish()
 
